@@ -159,10 +159,12 @@ void RefineVisitor::bvisit(const Pow &x)
             and not down_cast<const Number &>(*newexp).is_complex()) {
             if (is_true(is_positive(*inner_base, assumptions_))) {
                 result_ = pow(inner_base, mul(newexp, inner_exp));
-            } else {
+                return;
+            } else if (is_true(is_even(*inner_exp))) {
+                // (x**k)**n == abs(x)**(k*n) only for even integers k
                 result_ = pow(abs(inner_base), mul(newexp, inner_exp));
+                return;
             }
-            return;
         }
     }
     result_ = pow(newbase, newexp);
